@@ -5,7 +5,7 @@ import random
 BASE_W = dict(
     src=2, ref=6, select=4, drop=2, rename=4, mutate=6, mutate_w=1, filter=3, filter_empty=0, arrange=2,
     slice_head=1, group_by=2, ungroup=1, summarize=2, join=3, union=1, alias=2, collect=1,
-    clone=0, recompute=0, transfer=0, expr=0, collide_setup=0, selfjoin=0, hide_ref=0, touch_hidden_computed=0, hidden_computed_scenario=0, disjoint_join_scenario=0, overwrite_chain_scenario=0, pipe=0, apply_pipe=0, observe=0, collect_lazy=0, cq_probe=0, join_chain_scenario=0,
+    clone=0, recompute=0, transfer=0, expr=0, collide_setup=0, selfjoin=0, hide_ref=0, touch_hidden_computed=0, hidden_computed_scenario=0, disjoint_join_scenario=0, overwrite_chain_scenario=0, pipe=0, apply_pipe=0, observe=0, collect_lazy=0, cq_probe=0, join_chain_scenario=0, hidden_const_join_scenario=0,
     uuid_regime=1, gc=0, arm_engine=0, reject=0,
 )  # fmt: skip
 
@@ -55,7 +55,7 @@ PROFILES = {
     "join": dict(
         property="C06",
         oracles=["O6"],
-        weights=_w(join=12, collide_setup=4, disjoint_join_scenario=5, join_chain_scenario=2, ref=6, hide_ref=3, rename=8, mutate=6, select=4, filter=4, filter_empty=1, alias=5, summarize=0, group_by=0, ungroup=0, union=0, collect=1, slice_head=0, arrange=1, mutate_w=0),
+        weights=_w(join=12, collide_setup=4, disjoint_join_scenario=5, join_chain_scenario=2, hidden_const_join_scenario=3, ref=6, hide_ref=3, rename=8, mutate=6, select=4, filter=4, filter_empty=1, alias=5, summarize=0, group_by=0, ungroup=0, union=0, collect=1, slice_head=0, arrange=1, mutate_w=0),
         mutate_kinds=dict(ref=2, tag=5, lit=0, add=1),
         window_kinds=WIN,
         mutate_names=[3, 3, 2, 4],
@@ -106,8 +106,10 @@ PROFILES = {
     "subq": dict(
         property="C08",
         oracles=["O8"],
-        weights=_w(mutate=5, mutate_w=8, filter=7, arrange=6, slice_head=7, group_by=5, ungroup=2, summarize=6, select=2, rename=2, join=3, union=1, alias=4, ref=5, hide_ref=4, touch_hidden_computed=4, hidden_computed_scenario=3, overwrite_chain_scenario=2, join_chain_scenario=2, collect=0, uuid_regime=1),
+        weights=_w(mutate=5, mutate_w=8, filter=7, arrange=6, slice_head=7, group_by=5, ungroup=2, summarize=6, select=2, rename=2, join=3, union=1, alias=4, ref=5, hide_ref=4, touch_hidden_computed=4, hidden_computed_scenario=3, overwrite_chain_scenario=2, join_chain_scenario=2, hidden_const_join_scenario=2, collect=0, uuid_regime=1),
         mutate_kinds=dict(ref=2, tag=4, add=1, lit=1),
+        mutate_names=[5, 3, 2, 1],
+        rename_modes=[4, 2, 2, 1, 1],
         window_kinds=WIN,
         summarize_kinds=dict(agg=5, arith_agg=1),
         refarg_mix=dict(r=2, c=3, o=3, n=1),
@@ -123,7 +125,8 @@ PROFILES = {
         oracles=["O19"],
         weights=_w(mutate=7, mutate_w=6, filter=5, arrange=4, slice_head=4, group_by=4, ungroup=1, summarize=5, select=3, rename=3, join=5, union=2, alias=4, ref=6, hide_ref=3, hidden_computed_scenario=2, touch_hidden_computed=2, collect=0, observe=3, uuid_regime=2, cq_probe=8),
         mutate_kinds=dict(ref=2, tag=4, add=2, lit=1, case=2, litcast=2),
-        mutate_names=[4, 5, 2, 0],
+        mutate_names=[4, 5, 2, 1],
+        rename_modes=[4, 2, 2, 1, 1],
         window_kinds=WIN,
         summarize_kinds=dict(agg=5, arith_agg=1),
         refarg_mix=dict(r=4, c=3, o=3, n=1),
